@@ -1598,6 +1598,13 @@ static void do_deliver(ep_t *src, int count, int chunk)
         int o = 5 + 4 + 3, pl = buf[o];
         if (o + 1 + pl + 2 <= total) sb_printf(&g_out, ",\"skesig\":%d", (buf[o + 1 + pl] << 8) | buf[o + 1 + pl + 1]);
     }
+    if (dst->dtls && total > 13 + 12 + 4 && buf[0] == 22 && wsec == 0 && imsg == 12 && buf[13 + 12] == 3
+        && buf[13 + 6] == 0 && buf[13 + 7] == 0 && buf[13 + 8] == 0 && !memcmp(buf + 13 + 1, buf + 13 + 9, 3))
+    {
+        /* the same in a DTLS 1.2 datagram (13-byte record header, 12-byte handshake header, message not fragmented) */
+        int o = 13 + 12 + 3, pl = buf[o];
+        if (o + 1 + pl + 2 <= total) sb_printf(&g_out, ",\"skesig\":%d", (buf[o + 1 + pl] << 8) | buf[o + 1 + pl + 1]);
+    }
     if (!dst->dtls && total >= 5 + 4 + 2 && buf[0] == 22 && wsec == 0 && imsg == 15)
     {
         /* TLS 1.2 CertificateVerify (sent before the client's ChangeCipherSpec): the SignatureAndHashAlgorithm the client signed with */
